@@ -40,6 +40,16 @@ def _wsize(w):
     return len(json.dumps(w, sort_keys=True))
 
 
+def _same_obligation(a, b):
+    """a shrunk candidate must fail the same obligation (for the generic ones: the same sub-obligation, e.g.
+    PlanUnchanged/second-root), not merely have the same kind"""
+    if a["kind"] != b["kind"]:
+        return False
+    if a["kind"] in ("plan-changed", "print-rebuild", "nondeterministic"):
+        return a["locus"].split("/")[:2] == b["locus"].split("/")[:2]
+    return True
+
+
 def fn_names(ctx):
     pb = ctx.build("asmx")
     p = ctx.run([pb, "fns"])
@@ -281,7 +291,7 @@ def judge(ctx, cases, shrink=True):
         cands = []
         for (o, si) in owner:
             if o == ri:
-                cands += [s for s in by_case.get(si, []) if s["kind"] == r["kind"]]
+                cands += [s for s in by_case.get(si, []) if _same_obligation(s, r)]
         if cands:
             best_of[id(r)] = min(cands, key=lambda s: (s["depth"], _wsize(s["witness"])))
     out = [r for r in recs if not (r["depth"] > 1 and (r["kind"], r["locus"]) in groups)]
